@@ -21,7 +21,7 @@ from spec import frames, wgs84
 
 MANIFEST = dict(
     category="proof",
-    technique="to_180_range executed on z3 reals on each of its three code paths (remainder as a fresh integer quotient); Series algebra of compute_state_difference / perturb_pva executed on sympy reals (identities and Taylor coefficients); DataFrame branch and resample_state executed with symbolic cells on ENUMERATED concrete index shapes, scipy interp1d / Slerp replaced by their contracts; Series operands with their labels stored in other orders (enumerated arrangements); float64 run-time stand-in for the 'exactly' wording; Every claim is also checked for call history: the real code is run twice in the same symbolic world (primed inputs first; same captured objects and module state) and the second result must still meet the contract on every path a concrete witness input takes; value-dependent branches inside a claim are explored path by path. The frame obligations (C19's analysis) of the modules under contract are re-established under this property's name.",
+    technique="to_180_range executed on z3 reals on each of its three code paths (remainder as a fresh integer quotient); Series algebra of compute_state_difference / perturb_pva executed on sympy reals (identities and Taylor coefficients); DataFrame branch and resample_state executed with symbolic cells on ENUMERATED concrete index shapes, scipy interp1d / Slerp replaced by their contracts; Series operands with their labels stored in other orders (enumerated arrangements); float64 run-time stand-in for the 'exactly' wording; Every claim is also checked for call history: the real code is run twice in the same symbolic world (primed inputs first; same captured objects and module state) and the second result must still meet the contract on every path a concrete witness input takes; value-dependent branches inside a claim are explored path by path. The frame obligations (C19's analysis) of the modules under contract are re-established under this property's name.; Bounded stand-ins shared by all properties (labelled bounded, never counted as proved): the argument-form battery of the modules under contract (batches of 1 and 1200 rows, integer-typed values, labels / columns in other orders, extra labels); where the frame analysis finds state that outlives a call (a cache, a memo) the frame obligation becomes a dynamic purity contract against pristine process states; names the proofs replace by scipy contracts are checked to be bound to the library's functions (else a differential test).",
     text="Angle reduction: for EVERY real angle and on each code path (ndarray, scalar, pandas) the result lies in (-180, 180] and differs from the argument by an integer multiple of 360 (z3). Series pairs, all cell values: the difference is antisymmetric, zero against itself, in NED metres through the mean-latitude radii with down = -delta altitude, recovers the perturbing error to first order, and wraps angles last. DataFrame pairs: for every cell value on the listed index shapes (equal, nested 1:2 and 1:3, offset, two non-nested rates, partial overlap, one-row overlap, dense table with an outage against a sub-sampling of its gap-free stretch, column subsets) the operand resampled is the one the median rule names, the result is indexed by the sparser table's times inside the other's span, antisymmetric through the operand swap, zero over the reals against itself and against any sub-sampling, and the angle reduction is the last operation on the angle columns (so the range holds after the sign). resample_state reproduces rows at original times (reals), interpolates other columns linearly, drops times outside the span, keeps column order, and delegates attitude to Slerp (geodesic by its assumed contract). The index-shape dimension is ENUMERATED, not quantified. 'Exactly zero' in float64 is only examined by the stand-in.",
     note="A1-A6; scipy contracts: interp1d(linear) = piecewise-linear interpolant, exact at nodes; Slerp = geodesic interpolation, exact at nodes (assumed; uninterpreted between nodes); Rotation Euler contracts (C17); pandas label algebra executed on concrete indexes. Known finding F9: in float64 a table with attitude columns differs from itself by ~2e-14 deg (Euler -> rotation -> Euler round trip inside resample_state).",
 )
